@@ -123,7 +123,7 @@ func (stubTransport) RoundTrip(req *http.Request) (*http.Response, error) {
 	}
 	z.logf(&z.wkLog, "%s", req.URL.Host)
 	z.mu.Lock()
-	st := z.wk[strings.ToLower(host)]
+	st := z.wk[strings.TrimSuffix(strings.ToLower(host), ".")]
 	z.mu.Unlock()
 	if st == nil || st.status == 0 {
 		return nil, fmt.Errorf("c16 stub: connection to %s refused", host)
@@ -200,12 +200,16 @@ func (z *zone) setDNS(fqdn, qtype string, a dnsAns) {
 	z.mu.Unlock()
 }
 
-func (z *zone) setA(host, ip string) {
+func (z *zone) setA(host string, ips ...string) {
 	fq := dns.Fqdn(host)
-	z.setDNS(fq, "A", dnsAns{rrs: []dns.RR{&dns.A{
-		Hdr: dns.RR_Header{Name: fq, Rrtype: dns.TypeA, Class: dns.ClassINET, Ttl: 60},
-		A:   net.ParseIP(ip).To4(),
-	}}})
+	var rrs []dns.RR
+	for _, ip := range ips {
+		rrs = append(rrs, &dns.A{
+			Hdr: dns.RR_Header{Name: fq, Rrtype: dns.TypeA, Class: dns.ClassINET, Ttl: 60},
+			A:   net.ParseIP(ip).To4(),
+		})
+	}
+	z.setDNS(fq, "A", dnsAns{rrs: rrs})
 }
 
 // installStubs replaces http.DefaultTransport and net.DefaultResolver for the whole process.
@@ -270,7 +274,11 @@ type tlsSrv struct {
 }
 
 func newTLSSrv(ip string, onReq func(sni, host string) bool) (*tlsSrv, error) {
-	ln, err := net.Listen("tcp4", net.JoinHostPort(ip, "0"))
+	return newTLSSrvOn(ip, 0, onReq)
+}
+
+func newTLSSrvOn(ip string, port int, onReq func(sni, host string) bool) (*tlsSrv, error) {
+	ln, err := net.Listen("tcp4", net.JoinHostPort(ip, strconv.Itoa(port)))
 	if err != nil {
 		return nil, err
 	}
